@@ -187,3 +187,105 @@ func runCacheConc(c *Case) string {
 	}
 	return "cachec:" + strings.Join(outs, ",")
 }
+
+// runRxCache: the glue between the function library and the pattern cache (getRegexp, the exported
+// RegexpCache variable that clients may replace).  extra = ops separated by ';':
+//   W<cap>,<mode>          replace xpath.RegexpCache by a new cache with that capacity whose loader counts its
+//                          calls; mode 1 compiles "(?i)"+pattern (a client-customised loader)
+//   M<valid>,<hexp>,<hexs> matches(s, p) with the pattern computed at run time
+//   R<valid>,<hexp>,<hexs> replace(s, p, '#')
+//   L<valid>,<hexp>        Compile of matches('x', p) with a literal pattern (compile-time pre-check)
+// Each op reports its result against Go's regexp under the current mode, the loader calls so far and the
+// number of entries the cache holds.
+func runRxCache(c *Case) (out string) {
+	saved := xpath.RegexpCache
+	defer func() { xpath.RegexpCache = saved }()
+	loads := 0
+	mode := 0
+	var outs []string
+	swapped := false
+	for _, op := range strings.Split(c.Extra, ";") {
+		if op == "" {
+			continue
+		}
+		f := strings.Split(op[1:], ",")
+		if op[0] == 'W' {
+			capv, _ := strconv.Atoi(f[0])
+			mode, _ = strconv.Atoi(f[1])
+			m := mode
+			xpath.RegexpCache = xpath.NewLoadingCache(func(key interface{}) (interface{}, error) {
+				loads++
+				if m == 1 {
+					return regexp.Compile("(?i)" + key.(string))
+				}
+				return regexp.Compile(key.(string))
+			}, capv)
+			swapped = true
+			continue
+		}
+		if !swapped {
+			return "badop"
+		}
+		p := unhx(f[1])
+		eff := p
+		if mode == 1 {
+			eff = "(?i)" + p
+		}
+		re, reErr := regexp.Compile(eff)
+		var expr, want string
+		switch op[0] {
+		case 'M':
+			s := unhx(f[2])
+			expr = "matches('" + s + "', concat('" + p + "', ''))"
+			if reErr != nil {
+				want = "panic:raised"
+			} else if re.MatchString(s) {
+				want = "bool:1"
+			} else {
+				want = "bool:0"
+			}
+		case 'R':
+			s := unhx(f[2])
+			expr = "replace('" + s + "', concat('" + p + "', ''), '#')"
+			if reErr != nil {
+				want = "panic:raised"
+			} else {
+				want = "str:" + hx(re.ReplaceAllString(s, "#"))
+			}
+		case 'L':
+			expr = "matches('x', '" + p + "')"
+			if reErr != nil {
+				want = "cerr"
+			} else if re.MatchString("x") {
+				want = "bool:1"
+			} else {
+				want = "bool:0"
+			}
+		default:
+			return "badop"
+		}
+		got := ""
+		e, err := xpath.Compile(expr)
+		if err != nil {
+			got = "cerr"
+		} else {
+			func() {
+				defer func() {
+					if x := recover(); x != nil {
+						got = "panic:" + panicClass(x)
+					}
+				}()
+				got = valueStr(e.Evaluate(BuildTree(Doc{{Depth: 0, Kind: 'r'}}).At(Ref{0, -1}, true)))
+			}()
+		}
+		res := "ok"
+		if got != want {
+			res = "bad:" + got + "!=" + want
+		} else if reErr != nil {
+			res = "err"
+		}
+		size, _, _ := xpath.VerifRegexpCacheStats()
+		outs = append(outs, fmt.Sprintf("%s/%d/%d", res, loads, size))
+	}
+	return "rx:" + strings.Join(outs, ",")
+}
